@@ -2,6 +2,7 @@ package vt
 
 import (
 	"fmt"
+	"os"
 	"regexp"
 	"runtime"
 	"sort"
@@ -197,10 +198,22 @@ func (s *Sched) drain() bool {
 
 // settle waits until every goroutine of the process other than the scheduler is parked
 // at a gate, blocked on a primitive, or gone - unchanged over two consecutive polls.
+// settleBound is how long settle waits for the goroutines of a schedule to block (VT_SETTLE_MS overrides it).
+var settleBound = func() time.Duration {
+	if v, err := strconv.Atoi(os.Getenv("VT_SETTLE_MS")); err == nil && v > 0 {
+		return time.Duration(v) * time.Millisecond
+	}
+	return 45 * time.Second
+}()
+
 func (s *Sched) settle() {
 	stable := 0
 	var prev string
-	deadline := time.Now().Add(5 * time.Second)
+	// A goroutine that is runnable but not yet blocked means "still working".  On a loaded machine
+	// (load 250 was seen) a runnable goroutine may not get the processor for seconds: giving up after
+	// 5 s let the scheduler decide while somebody was still running (one false `stuck`).  The bound only
+	// protects against a goroutine that spins for ever.
+	deadline := time.Now().Add(settleBound)
 	for {
 		if s.drain() {
 			stable = 0
